@@ -284,7 +284,7 @@ def judge_ref(case, lines, check_pending=False, eps_filter=None):
     return None
 
 # ------------------------------------------------------------------ C05 / C17 / C18 histories
-def chain_frames(rng, e, start, nseg, mt=None, ver=None, sizes=None, trail=True):
+def chain_frames(rng, e, start, nseg, mt=None, ver=None, sizes=None, trail=True, prefix=False):
     """frames of one well-formed segmented message of endpoint e with consecutive counters from start"""
     mt = rng.choice([1, 3, 255]) if mt is None else mt
     ver = rng.range(1, 255) if ver is None else ver
@@ -293,15 +293,28 @@ def chain_frames(rng, e, start, nseg, mt=None, ver=None, sizes=None, trail=True)
     for i in range(nseg):
         seg = 4 if i == 0 else (12 if i == nseg - 1 else 8)
         n = sizes[i] if sizes else rng.choice([0, 1, 2, 5, 16, 40, 77])
-        tr = rng.bytes(rng.choice([1, 4, 9])) if (trail and rng.chance(1, 3)) else b''
+        tr = b''
+        if trail and rng.chance(1, 3):
+            k = rng.below(4)
+            if k == 0:
+                # what follows the declared length is itself a complete, valid message (an older frame left in a reused buffer):
+                # unsegmented, or a first segment - a segment is alone in its frame, the rest is ignored
+                tr = msg(rng.next(), rng.next() & 0xFFFFFFFF, (rng.below(256) & 0xB3) | rng.choice([0, 0, 4]), rng.range(1, 255), rng.bytes(rng.choice([0, 3, 20])))
+            else:
+                tr = rng.bytes(rng.choice([1, 4, 9, 16, 40]))
         # later segments may carry different header fields: those of the first segment must win
         # (timestamp, id, flags and also the payload-type byte - any non-zero value)
         m = msg(ts if i == 0 else rng.next(), ident if i == 0 else rng.next() & 0xFFFFFFFF, (fl if i == 0 else rng.below(256) & 0xB3) | seg,
                 pt if (i == 0 or rng.chance(1, 2)) else rng.range(1, 255), rng.bytes(n), trail=tr)
-        out.append(cmp_frame(ver, e[0], mt, e[1], (start + i) % 65536, [m]))
+        pre = []
+        if prefix and i > 0 and rng.chance(1, 4):
+            # aggregated frame: valid unsegmented message(s) first, then the continuation segment. The unsegmented message cancels the
+            # pending reassembly, so the segment behind it is an orphan (the chain is NOT delivered)
+            pre = [msg(rng.next(), rng.next() & 0xFFFFFFFF, rng.below(256) & 0xB3, rng.range(1, 255), rng.bytes(rng.choice([0, 1, 9]))) for _ in range(rng.range(1, 2))]
+        out.append(cmp_frame(ver, e[0], mt, e[1], (start + i) % 65536, pre + [m]))
     return out
 
-def gen_history(rng, cid, neps=3, nitems=6, kinds=('chain', 'unseg', 'orphan', 'abort', 'garbage', 'tecmp', 'short', 'hdronly')):
+def gen_history(rng, cid, neps=3, nitems=6, kinds=('chain', 'unseg', 'orphan', 'abort', 'garbage', 'tecmp', 'short', 'hdronly', 'mixed', 'tecmp8', 'pierced', 'chain')):
     """interleaving of per-endpoint item streams; each endpoint's frames stay in order"""
     eps = []
     base_dev = rng.below(65536)
@@ -340,6 +353,10 @@ def gen_history(rng, cid, neps=3, nitems=6, kinds=('chain', 'unseg', 'orphan', '
                 c = chain_frames(rng, e, seq, rng.range(2, 4)); fr += c[1:]; seq += len(c)
             elif k == 'abort':
                 c = chain_frames(rng, e, seq, rng.range(3, 5)); cut = rng.range(1, len(c) - 1); fr += c[:cut]; seq += len(c) + rng.below(2)
+            elif k == 'pierced':
+                # a non-CMP 8-byte buffer spelling this endpoint arrives in the middle of a chain: the chain must still complete
+                c = chain_frames(rng, e, seq, rng.range(2, 4)); cut = rng.range(1, len(c) - 1)
+                fr += c[:cut] + [bytes([0, rng.below(256)]) + be(e[0], 2) + bytes([rng.below(256), e[1], rng.below(256), rng.below(256)])] + c[cut:]; seq += len(c)
             elif k == 'garbage':
                 h = dict(ver=rng.range(1, 255), dev=e[0], mt=1, stream=e[1], seq=seq % 65536)
                 fr.append(frame_of(h, [rng.bytes(rng.range(1, 30))])); seq += 1
@@ -349,6 +366,12 @@ def gen_history(rng, cid, neps=3, nitems=6, kinds=('chain', 'unseg', 'orphan', '
                 fr.append(tecmp_hdr(e[0] & 255, 3, 2, 9, ifid=5, ts=77) + bytes([0, 0, 1, 0x23, 4, 1, 2, 3, 4]))
             elif k == 'short':
                 fr.append(rng.bytes(rng.below(8)))
+            elif k == 'mixed':
+                # chains whose continuation frames also carry unsegmented messages in front of the segment
+                c = chain_frames(rng, e, seq, rng.range(2, 5), prefix=True); fr += c; seq += len(c)
+            elif k == 'tecmp8':
+                # an 8-byte buffer that is NOT a capture-module frame (first byte 0) whose bytes 2..3 / 5 spell this endpoint
+                fr.append(bytes([0, rng.below(256)]) + be(e[0], 2) + bytes([rng.below(256), e[1], rng.below(256), rng.below(256)]))
         streams.append(fr)
     # random merge
     idx = [0] * len(streams)
@@ -688,6 +711,11 @@ def tecmp_samples(rng):
     k = rng.choice([0, 1, 3, 9])
     out.append(tecmp_hdr(rng.below(256), 2, 0, 12 + 12 * k) + rng.bytes(12 + 12 * k))
     out.append(tecmp_hdr(rng.below(256), rng.below(256), rng.below(65536), 8) + rng.bytes(8))
+    # status messages whose announced payload is shorter than their fixed part (bus status < 12 + 12, capture-module status < 36)
+    n = rng.choice([0, 1, 5, 11, 12, 13, 23])
+    out.append(tecmp_hdr(rng.below(256), 2, 0, n) + rng.bytes(n))
+    n = rng.choice([0, 1, 17, 18, 35])
+    out.append(tecmp_hdr(rng.below(256), 1, 0, n) + rng.bytes(n))
     return out
 
 def mutate(rng, f):
@@ -729,7 +757,13 @@ def gen_c02(rng, cid, big=False):
             f = mutate(rng, frame_of(h, [rand_msg(rng, h['mt'], consistent=rng.chance(1, 2), flags=rng.below(256)) for _ in range(rng.range(1, 4))]))
         elif k == 5:
             e = (rng.below(4), rng.below(2))
-            f = mutate(rng, rng.choice(chain_frames(rng, e, rng.below(65536), rng.range(2, 4))))
+            if rng.chance(1, 2):
+                # a whole chain, continuation frames possibly aggregated behind unsegmented messages / followed by valid trailing messages
+                ch = chain_frames(rng, e, rng.below(65536), rng.range(2, 4), prefix=True)
+                frames += ch[:-1]
+                f = ch[-1]
+            else:
+                f = mutate(rng, rng.choice(chain_frames(rng, e, rng.below(65536), rng.range(2, 4))))
         elif k == 6:
             h = rand_hdr(rng)
             f = frame_of(h, [rand_msg(rng, h['mt'], consistent=False)])
